@@ -198,7 +198,8 @@ def pytorch_stft_frame_computer(
         idx = idx.remainder(2 * sig_len)
         idx = torch.where(idx < sig_len, idx, 2 * sig_len - 1 - idx)
         sig = sig[idx]
-    sig = sig.as_strided((num_frames, frame_length), (frame_shift, 1))
+    # as_strided addresses the underlying storage, so the signal must be laid out densely
+    sig = sig.contiguous().as_strided((num_frames, frame_length), (frame_shift, 1))
     y: List[torch.Tensor] = []
     if include_energy:
         energy = torch.linalg.norm(sig, 2, 1) / math.sqrt(frame_length)
